@@ -142,6 +142,82 @@ def sort_shape_cases(tier):
                     yield env, f, "sortshape:%s:%s:%s" % (leaf, "-".join(ch), c)
 
 
+def degenerate_cases(tier):
+    """DEGENERATE-LISTS family: argument and binder lists that are legal but unusual - a bound variable named twice or
+    three times, vacuous binders, binders equal to / larger than the free symbols of the body, for EVERY body free set over
+    four variables x EVERY binder list of length 1..3 over them; the same argument given twice to n-ary operators,
+    functions, array values; the same shapes read by the SMT-LIB parser (which keeps (forall ((x Int) (x Int)) ...))."""
+    import itertools
+    from io import StringIO
+    import pysmt.operators as op
+    from pysmt.smtlib.parser import SmtLibParser
+    from pysmt.typing import BOOL, INT, STRING, ArrayType, BVType, FunctionType
+    env = Environment()
+    m = env.formula_manager
+    V = [m.Symbol(n, INT) for n in "xyzw"]
+    p, q = m.Symbol("p", BOOL), m.Symbol("q", BOOL)
+    f2 = m.Symbol("f2", FunctionType(INT, [INT, INT]))
+    pr = m.Symbol("pr", FunctionType(BOOL, [INT]))
+
+    def body(F, k):
+        if k % 3 == 0:
+            return m.Implies(m.GE(F[0], F[-1]), m.And([m.GE(v, m.Int(0)) for v in F]))
+        if k % 3 == 1:          # function names are free symbols too; shared sub-terms
+            t = m.Function(f2, [F[0], F[-1]])
+            return m.And([m.Function(pr, [m.Plus(t, v)]) for v in F] + [m.LE(t, t)])
+        return m.Or([m.Equals(v, m.Int(i)) for i, v in enumerate(F)] + [p])
+    binders = [list(b) for n in (1, 2, 3) for b in itertools.product(V, repeat=n)]
+    k = 0
+    for n in (1, 2, 3, 4):
+        for F in itertools.combinations(V, n):
+            for B in binders:
+                k += 1
+                if tier == "quick" and len(set(B)) == len(B) == 3 and k % 4:
+                    continue            # duplicate-free triples are thinned in the quick tier
+                Q = m.ForAll if k % 2 else m.Exists
+                yield env, Q(B, body(list(F), k)), "degenerate:binder:%s:%s" % ("".join(v.symbol_name() for v in B), "".join(v.symbol_name() for v in F))
+    x, y, z, w = V
+    # nested / shadowing binders with repetitions, Boolean bound variables, the empty-free-set body
+    b0 = m.Implies(m.GE(x, y), m.GE(x, m.Int(0)))
+    for B1 in ([x, x], [x, z, x], [y, y], [x, y, x, y], [z], [z, z, w]):
+        for B2 in ([x, x], [y, x, y], [w, w], [x]):
+            yield env, m.ForAll(B1, m.Exists(B2, b0)), "degenerate:nested"
+            yield env, m.And(m.ForAll(B1, b0), m.Exists(B2, m.Not(b0)), b0), "degenerate:siblings"
+    for B in ([p, p], [p, q, p], [q, q], [p, x, p, x]):
+        yield env, m.Exists(B, m.And(p, m.GE(x, y))), "degenerate:bool-binder"
+        yield env, m.ForAll(B, m.TRUE()), "degenerate:closed-body"
+    # the same argument more than once
+    a, b = m.GE(x, y), m.Function(pr, [x])
+    bv, st = m.Symbol("bv", BVType(8)), m.Symbol("st", STRING)
+    arr = m.Symbol("arr", ArrayType(INT, INT))
+    rep = [m.And(a, a), m.Or(a, a, b), m.And(a, b, a), m.Iff(a, a), m.Implies(a, a), m.Xor(p, p), m.Plus(x, x), m.Plus(x, y, x), m.Times(x, x),
+           m.Minus(x, x), m.Equals(x, x), m.LE(x, x), m.Ite(p, x, x), m.Ite(p, p, p), m.Function(f2, [x, x]),
+           m.Function(f2, [m.Function(f2, [x, x]), m.Function(f2, [x, x])]), m.BVAnd(bv, bv), m.BVConcat(bv, bv), m.BVULT(bv, bv),
+           m.BVAdd(bv, bv), m.StrConcat(st, st), m.StrConcat(st, st, st), m.StrContains(st, st), m.Select(arr, m.Select(arr, x)),
+           m.Store(arr, x, x), m.Store(m.Store(arr, x, y), x, y), m.AllDifferent(x, x), m.ExactlyOne(p, p), m.AtMostOne(a, a, a),
+           m.Array(INT, x, {x: x}), m.Array(INT, x, {x: x, m.Plus(x, m.Int(0)): x}),
+           m.create_node(node_type=op.ARRAY_VALUE, args=(x, y, x, y, z), payload=INT),         # the key y twice
+           m.create_node(node_type=op.AND, args=(a, a, a)), m.create_node(node_type=op.PLUS, args=(x, x, x, x))]
+    for t in rep:
+        yield env, t, "degenerate:repeated-argument"
+        if t.get_type().is_bool_type():
+            yield env, m.ForAll([x, x], m.Or(t, m.GE(x, z))), "degenerate:repeated-argument-under-repeated-binder"
+        else:
+            yield env, m.Exists([x, y, x], m.EqualsOrIff(t, t)), "degenerate:repeated-argument-under-repeated-binder"
+    # through the parser (a fresh environment: the parser declares the symbols itself)
+    texts = ["(forall ((x Int) (x Int)) (=> (>= x y) (>= x 0)))", "(exists ((x Int) (z Int) (x Int)) (and (>= x y) (>= z y)))",
+             "(forall ((x Int) (x Int) (x Int)) (>= x y))", "(forall ((z Int) (z Int)) (>= x y))", "(exists ((x Int) (y Int) (x Int) (y Int)) (>= x y))",
+             "(forall ((x Int) (x Int)) (exists ((y Int) (y Int)) (and (>= x y) (>= z 0))))", "(and (>= x y) (>= x y))", "(= (g x x) (g x x))",
+             "(let ((v x) (u x)) (>= (+ v u v) y))", "(forall ((x Int) (z Int) (x Int)) (and (>= x y) (>= z y) (>= w 0)))", "(distinct x x)"]
+    penv = Environment()
+    pre = "(declare-fun x () Int)(declare-fun y () Int)(declare-fun z () Int)(declare-fun w () Int)(declare-fun g (Int Int) Int)"
+    for t in texts:
+        try:
+            yield penv, SmtLibParser(penv).get_script(StringIO(pre + "(assert %s)" % t)).get_last_formula(), "degenerate:parsed"
+        except Exception:   # noqa: a text the parser does not take is not a case
+            continue
+
+
 def check_types(chk, env, f, fam):
     """get_types in both modes against the definition, against each other, and the stated order."""
     want = ref_types(f)
@@ -257,9 +333,19 @@ def run(tier):
             batch.append(f)
             yield e, f, fam
         recheck(last, batch)
-    nshape = 0
+        batch, last = [], None
+        for e, f, fam in degenerate_cases(tier):
+            if e is not last and last is not None:
+                recheck(last, batch)
+                batch = []
+            last = e
+            batch.append(f)
+            yield e, f, fam
+        recheck(last, batch)
+    nshape = ndegen = 0
     for env, f, fam in inputs():
-        nshape += fam != "random"
+        nshape += fam.startswith("sortshape")
+        ndegen += fam.startswith("degenerate")
         fvs = env.fvo.get_free_variables(f)
         try:
             ats = env.ao.get_atoms(f)
@@ -314,7 +400,7 @@ def run(tier):
     files = termcases.write(chk.dir, "c12", "From PySMT.models Require Import TypeChecker Oracles OraclesCustom.",
                             "term * list var * option (list term) * bool * list ty * list ty * list nat", ok_def, cases, shard=60)
     bad, errs = termcases.run(files)
-    chk.cov["correspondence"] = {"cases": len(cases), "sort_shape_cases": nshape, "disagreements": len(bad), "case_file_errors": len(errs),
+    chk.cov["correspondence"] = {"cases": len(cases), "sort_shape_cases": nshape, "degenerate_list_cases": ndegen, "disagreements": len(bad), "case_file_errors": len(errs),
                                  "node_types_covered": len(ops_seen), "examples": [meta[i].serialize()[:300] for i in bad[:5]]}
     for e in errs[:2]:
         chk.note("case file error: " + e["error"][-400:])
@@ -332,7 +418,8 @@ def run(tier):
     return chk.finish(TRUSTED, ASSUME,
                       "random well-typed formulas of all theories with sharing (gen/formulas.py), fresh Environment every 100; SORT-SHAPE family "
                       "(user sort S / P(S) / Q(Int,S) as the only occurrence under every chain of Array-index / Array-element / parametric wrappers "
-                      "of depth 0..3 x 8 carriers), get_types compared in both modes (default, custom_only) with the model and the definition; "
+                      "of depth 0..3 x 8 carriers), DEGENERATE-LISTS family (every binder list of length 1..3 over four variables, repetitions included, x every "
+                      "free set of the body; repeated arguments of n-ary operators / functions / array values; the same through the parser), get_types compared in both modes (default, custom_only) with the model and the definition; "
                       "distinct = distinct structural keys with at least one operator application")
 
 
